@@ -7,7 +7,11 @@ pub use crate::time_control::*;
 pub use crate::utils::*;
 use crate::zobrist::ZobristHasher;
 use log::{error, info};
+#[cfg(walleye_verif)]
+use crate::verif_seam::{io, process};
+#[cfg(not(walleye_verif))]
 use std::io::{self, BufRead};
+#[cfg(not(walleye_verif))]
 use std::process;
 #[cfg(walleye_verif)]
 use crate::verif_seam::{mpsc, thread};
